@@ -5,103 +5,12 @@ exit 0  property held on everything explored (KNOWN-FINDING lines for listed fin
 exit 1  VIOLATION property=<id> replay=<path>
 exit 2  tool error
 """
-import argparse, json, os, sys, time, random, hashlib, traceback
+import argparse, glob, hashlib, json, os, random, sys, time, traceback
 
 sys.path.insert(0, os.path.dirname(os.path.abspath(__file__)))
 import vlib
 from vlib import ToolError
-
-GROUP_OF = {}
-
-
-def reg(group, props):
-    for p in props:
-        GROUP_OF[p] = group
-
-
-# =============================================================================================
-# group "sink": C05 C06 C13 C14  (Sink.tla + SinkMon.tla)
-
-reg("sink", ["C05", "C06", "C13", "C14"])
-
-SINK_CFG = """SPECIFICATION ExportSpec
-CONSTANTS
-  Ver = {ver}
-  Cap = {cap}
-  Kinds <- {kinds}
-  IdMax = {idmax}
-  MaxUses = {uses}
-  MaxBad = {bad}
-  UseWrb = {wrb}
-  UseCancel = {cancel}
-  CallerIds <- {cids}
-  Fixed = {fixed}
-VIEW view
-INVARIANT TypeOk
-INVARIANT NoLostWakeup
-CHECK_DEADLOCK FALSE
-"""
-
-
-def sink_configs(tier):
-    """(name, params, roles) — roles: endpoints on which the behaviours are replayed"""
-    T, F = "TRUE", "FALSE"
-    cs = []
-    for ver in (3, 5):
-        cs += [
-            (f"v{ver}_win1", dict(ver=ver, cap=1, kinds="K_q1q1q1", idmax=3, uses=1, bad=0, wrb=F, cancel=T, cids="Ids0"), ["server", "client"]),
-            (f"v{ver}_wrb1", dict(ver=ver, cap=1, kinds="K_q1q1q2", idmax=3, uses=1, bad=0, wrb=T, cancel=F, cids="Ids0"), ["server"]),
-            (f"v{ver}_q2x2", dict(ver=ver, cap=2, kinds="K_q2q2q1", idmax=3, uses=1, bad=0, wrb=F, cancel=F, cids="Ids0"), ["server", "client"]),
-            (f"v{ver}_bad", dict(ver=ver, cap=2, kinds="K_q1q2", idmax=2, uses=1, bad=1, wrb=F, cancel=F, cids="Ids0"), ["server", "client"]),
-            (f"v{ver}_subs", dict(ver=ver, cap=1, kinds="K_subs", idmax=3, uses=1, bad=0, wrb=F, cancel=T, cids="Ids0"), ["client"]),
-            (f"v{ver}_ids", dict(ver=ver, cap=2, kinds="K_q1q1", idmax=2, uses=2, bad=0, wrb=F, cancel=F, cids="Ids01"), ["server"]),
-        ]
-        if tier == "thorough":
-            cs += [
-                (f"v{ver}_win2", dict(ver=ver, cap=2, kinds="K_q1q1q1q2", idmax=4, uses=1, bad=0, wrb=F, cancel=T, cids="Ids0"), ["server", "client"]),
-                (f"v{ver}_all3", dict(ver=ver, cap=1, kinds="K_q1q1q2", idmax=3, uses=1, bad=1, wrb=T, cancel=T, cids="Ids0"), ["server"]),
-                (f"v{ver}_q2x3", dict(ver=ver, cap=3, kinds="K_q2q2q2", idmax=3, uses=1, bad=0, wrb=F, cancel=F, cids="Ids0"), ["server"]),
-                (f"v{ver}_mix4", dict(ver=ver, cap=2, kinds="K_mixed4", idmax=3, uses=1, bad=0, wrb=T, cancel=F, cids="Ids0"), ["client"]),
-                (f"v{ver}_badsub", dict(ver=ver, cap=2, kinds="K_subq1", idmax=2, uses=1, bad=1, wrb=F, cancel=F, cids="Ids0"), ["client"]),
-            ]
-    return cs
-
-
-def sink_decode(tokens, ver, role, cap):
-    """model command tokens -> harness run (cfg, cmds)"""
-    cfg = dict(role=role, ver=ver, max_send=cap, gate_pub=1)
-    cmds = []
-    if role == "server":
-        cmds.append({"c": "in", "p": {"t": "connect", "ka": 0}})
-    else:
-        p = {"t": "connack", "rc": 0}
-        if ver == 5:
-            p["rm"] = cap
-        cmds.append({"c": "in", "p": p})
-    for t in tokens:
-        c = t[0]
-        if c == "s":
-            s, kind, cid = t[1:].split(":")
-            cmds.append({"c": "send", "s": int(s), "k": kind, "id": int(cid)})
-        elif c == "p":
-            cmds.append({"c": "poll", "s": int(t[1:])})
-        elif c == "d":
-            cmds.append({"c": "drop", "s": int(t[1:])})
-        elif c == "a":
-            cmds.append({"c": "ack", "n": 1})
-        elif c == "b":
-            a, i = t[1:].split(":")
-            cmds.append({"c": "in", "p": {"t": a.lower(), "id": int(i)}})
-        elif c == "r":
-            cmds.append({"c": "release", "s": int(t[1:]), "t": int(t[1:]) + 20})
-        elif c == "x":
-            cmds.append({"c": "rdrop", "s": int(t[1:])})
-        elif c == "w":
-            cmds.append({"c": "wrb", "on": int(t[1:])})
-        else:
-            raise ToolError(f"unknown model token {t}")
-    cmds.append({"c": "settle"})
-    return cfg, cmds
+import groups
 
 
 def pick(line_key, seed, keep_frac):
@@ -109,164 +18,69 @@ def pick(line_key, seed, keep_frac):
     return int.from_bytes(h[:4], "big") / 2**32 < keep_frac
 
 
-def group_sink(tier, seed, fixed):
-    out = dict(tlc=[], runs=[], model_bad={}, wall={})
+def run_model_group(g, tier, seed):
+    """generic pipeline for a connection-level group:
+       TLC export (per configuration) -> replay sample/all on the real code -> TLC judge"""
+    out = dict(tlc=[], wall={})
     runs = []
-    per_cfg_quota = 350 if tier == "quick" else 10**9
-    for name, params, roles in sink_configs(tier):
-        cfg_text = SINK_CFG.format(fixed="TRUE" if fixed else "FALSE", **params)
-        r = vlib.tlc("MC_Sink", cfg_text, "sink_" + name, workers=8 if tier == "quick" else 14,
-                     timeout=3000)
+    quota = g.get("quota", 350) if tier == "quick" else 10**9
+    for name, cfg_text, module, decode, variants in g["configs"](tier):
+        r = vlib.tlc(module, cfg_text, f"{g['name']}_{name}", workers=8 if tier == "quick" else 14, timeout=3000)
         if r.get("error"):
-            # a model-internal invariant (TypeOk / NoLostWakeup) failed: report as model finding
             out.setdefault("model_invariant_failures", []).append(dict(cfg=name, error=r["error"]))
-        # count replay lines first to decide the sampling fraction
-        total = 0
-        for _ in vlib.prints(r["out"], "REPLAY"):
-            total += 1
-        frac = min(1.0, per_cfg_quota / max(total, 1))
-        kept = 0
-        nbad = 0
+        total = sum(1 for _ in vlib.prints(r["out"], "REPLAY"))
+        frac = min(1.0, quota / max(total, 1))
+        kept = nbad = 0
         for bad, hist in vlib.prints(r["out"], "REPLAY"):
             is_bad = bad != "none"
-            if is_bad:
-                nbad += 1
+            nbad += is_bad
             if not (is_bad and nbad <= 40) and not pick(hist, seed, frac):
                 continue
             tokens = json.loads(hist)
-            for role in roles:
-                cfg, cmds = sink_decode(tokens, params["ver"], role, params["cap"])
+            for var in variants:
+                cfg, cmds = decode(tokens, var)
                 runs.append(dict(run=len(runs), cfg=cfg, cmds=cmds, model_bad=bad, src=name, tokens=tokens))
             kept += 1
         out["tlc"].append(dict(cfg=name, generated=r["generated"], distinct=r["distinct"], wall=r["wall"],
                                cached=r["cached"], transitions=total, replayed=kept, model_bad_lines=nbad))
-    # random long drivers outside the TLC bounds
     rnd = random.Random(seed)
-    nrand = 300 if tier == "quick" else 4000
-    for i in range(nrand):
-        runs.append(sink_random_run(rnd, len(runs)))
+    for extra in g.get("extra_runs", lambda tier, rnd: [])(tier, rnd):
+        extra["run"] = len(runs)
+        extra.setdefault("src", "generated")
+        runs.append(extra)
     out["nruns"] = len(runs)
     hruns = [dict(run=r["run"], cfg=r["cfg"], cmds=r["cmds"]) for r in runs]
-    tp, hw = vlib.run_harness("conn", hruns, f"sink_{tier}")
+    tp, hw = vlib.run_harness("conn", hruns, f"{g['name']}_{tier}")
     out["wall"]["harness"] = round(hw, 2)
     t0 = time.time()
-    verdict = vlib.judge("SinkJudge", tp, f"sink_{tier}")
+    verdict = vlib.judge(g["judge"], tp, f"{g['name']}_{tier}")
     out["wall"]["judge"] = round(time.time() - t0, 2)
     out["judge"] = dict(runs=verdict["runs"], events=verdict["events"])
     byrun = {v["run"]: v for v in verdict["viol"]}
-    # conformance of verdicts: model prediction vs real code, per replayed behaviour
     agree = disagree = 0
-    dis_samples = []
-    viols = []
+    dis_samples, viols = [], []
+    tail_cmds = g.get("tail_cmds", ("settle", "drain"))
     for r in runs:
         v = byrun.get(r["run"])
         real = v["why"] if v else "none"
         if "model_bad" in r:
-            # the model's verdict covers the commands it generated, not the trailing settle
-            real_m = real if (v and v.get("cmd") != "settle") else "none"
+            real_m = real if (v and v.get("cmd") not in tail_cmds) else "none"
             if (r["model_bad"] == "none") == (real_m == "none"):
                 agree += 1
             else:
                 disagree += 1
-                if len(dis_samples) < 10:
-                    dis_samples.append(dict(tokens=r["tokens"], role=r["cfg"]["role"], ver=r["cfg"]["ver"],
+                if len(dis_samples) < 12:
+                    dis_samples.append(dict(tokens=r["tokens"], role=r["cfg"].get("role"), ver=r["cfg"].get("ver"),
                                             model=r["model_bad"], real=real_m))
         if v:
             viols.append(dict(run=r["run"], why=real, cfg=r["cfg"], cmds=r["cmds"], src=r.get("src", "random"),
                               tokens=r.get("tokens")))
-    out["verdict_agree"] = agree
-    out["verdict_drift"] = disagree
-    out["drift_samples"] = dis_samples
-    out["viols"] = viols
-    out["samples"] = [dict(src=r.get("src", "random"), role=r["cfg"]["role"], ver=r["cfg"]["ver"],
-                           cmds=[c for c in r["cmds"]][:14], verdict=byrun.get(r["run"], {}).get("why", "none"))
-                      for r in runs[:: max(1, len(runs) // 6)]][:6]
+    out.update(verdict_agree=agree, verdict_drift=disagree, drift_samples=dis_samples, viols=viols)
+    step = max(1, len(runs) // 6)
+    out["samples"] = [dict(src=r.get("src", "random"), role=r["cfg"].get("role"), ver=r["cfg"].get("ver"),
+                           cmds=r["cmds"][:14], verdict=byrun.get(r["run"], {}).get("why", "none"))
+                      for r in runs[::step]][:6]
     return out
-
-
-def sink_random_run(rnd, idx):
-    ver = rnd.choice([3, 5])
-    role = rnd.choice(["server", "client"])
-    cap = rnd.randint(1, 4)
-    kinds = ["q1", "q2", "ready"] + (["sub", "unsub"] if role == "client" else [])
-    cfg = dict(role=role, ver=ver, max_send=cap, gate_pub=1)
-    cmds = []
-    if role == "server":
-        cmds.append({"c": "in", "p": {"t": "connect", "ka": 0}})
-    else:
-        p = {"t": "connack", "rc": 0}
-        if ver == 5:
-            p["rm"] = cap
-        cmds.append({"c": "in", "p": p})
-    if rnd.random() < 0.15:
-        cmds.append({"c": "next_id", "n": 65533})
-    nsend = rnd.randint(2, 16)
-    live = []
-    hold = []
-    nxt = 1
-    wrb = False
-    for _ in range(rnd.randint(10, 120)):
-        x = rnd.random()
-        if x < 0.25 and nxt <= nsend:
-            k = rnd.choice(kinds)
-            cmds.append({"c": "send", "s": nxt, "k": k, "id": 0})
-            live.append(nxt)
-            if k == "q2":
-                hold.append(nxt)
-            nxt += 1
-        elif x < 0.55 and live:
-            cmds.append({"c": "poll", "s": rnd.choice(live)})
-        elif x < 0.75:
-            cmds.append({"c": "ack", "n": rnd.randint(1, 3)})
-        elif x < 0.82 and hold:
-            s = hold.pop(rnd.randrange(len(hold)))
-            if rnd.random() < 0.7:
-                cmds.append({"c": "release", "s": s, "t": s + 20})
-                live.append(s + 20)
-            else:
-                cmds.append({"c": "rdrop", "s": s})
-        elif x < 0.88 and live:
-            s = live.pop(rnd.randrange(len(live)))
-            cmds.append({"c": "drop", "s": s})
-        elif x < 0.94:
-            wrb = not wrb
-            cmds.append({"c": "wrb", "on": int(wrb)})
-    if wrb:
-        cmds.append({"c": "wrb", "on": 0})
-    cmds.append({"c": "settle"})
-    return dict(run=idx, cfg=cfg, cmds=cmds)
-
-
-# =============================================================================================
-
-GROUPS = {"sink": group_sink}
-
-LEVELS = {p: "model_checking" for p in ["C05", "C06", "C13", "C14"]}
-
-ASSUME = {
-    "sink": [
-        "bounds of the TLC configurations listed under coverage.tlc (senders, window, id space, wrong acks)",
-        "sender futures are polled only on command (single-threaded deterministic runtime; ntex runs one connection per thread)",
-        "back-pressure notifications are delivered to the sink through the cfg-gated hook, as ControlService does",
-        "the harness tokeniser (independent of the crate codec) reports the wire faithfully",
-    ],
-}
-
-FIXED_FLAGS = {"sink": False}
-
-
-def signature(v):
-    cfg = v["cfg"]
-    kinds = sorted({c.get("k") for c in v["cmds"] if c.get("c") == "send"})
-    feats = []
-    cs = [c.get("c") for c in v["cmds"]]
-    for f in ("drop", "wrb", "release", "rdrop"):
-        if f in cs:
-            feats.append(f)
-    if any(c.get("c") == "in" and c.get("p", {}).get("t") in ("puback", "pubrec", "pubcomp", "suback", "unsuback")
-           for c in v["cmds"]):
-        feats.append("badack")
-    return f"{v['why']}|v{cfg['ver']}|{cfg['role']}|{'+'.join(kinds)}|{'+'.join(feats)}"
 
 
 def main():
@@ -277,24 +91,27 @@ def main():
     a = ap.parse_args()
     seed = int(os.environ.get("VERIF_SEED", "1"))
     prop = a.prop
-    if prop not in GROUP_OF:
+    if prop not in groups.GROUP_OF:
         print(f"unknown property {prop}", file=sys.stderr)
         return 2
-    group = GROUP_OF[prop]
+    g = groups.GROUPS[groups.GROUP_OF[prop]]
     t0 = time.time()
     try:
         vlib.build_harness()
         if a.replay:
-            return replay(prop, group, a.replay)
+            return replay(prop, g, a.replay)
+        if g.get("kind", "model") != "model":
+            return g["run"](prop, a.tier, seed)
         th = vlib.repo_tree_hash()
         gdir = os.path.join(vlib.WORK, "group")
         os.makedirs(gdir, exist_ok=True)
-        gp = os.path.join(gdir, f"{group}_{a.tier}_{seed}_{th}_{vlib.spec_hash(__import__('glob').glob(os.path.join(vlib.SPEC, '*.tla')))}.json")
+        sh = vlib.spec_hash(glob.glob(os.path.join(vlib.SPEC, "*.tla")) + glob.glob(os.path.join(vlib.ROOT, "bin", "*.py")))
+        gp = os.path.join(gdir, f"{g['name']}_{a.tier}_{seed}_{th}_{sh}.json")
         if os.path.exists(gp) and time.time() - os.path.getmtime(gp) < 1800:
             res = json.load(open(gp))
             res["group_cached"] = True
         else:
-            res = GROUPS[group](a.tier, seed, FIXED_FLAGS[group])
+            res = run_model_group(g, a.tier, seed)
             res["group_wall"] = round(time.time() - t0, 2)
             json.dump(res, open(gp, "w"))
     except ToolError as e:
@@ -303,43 +120,38 @@ def main():
     except Exception:
         traceback.print_exc()
         return 2
-    return report(prop, group, a.tier, seed, res, time.time() - t0)
+    return report(prop, g, a.tier, seed, res, time.time() - t0)
 
 
-def report(prop, group, tier, seed, res, wall):
+def report(prop, g, tier, seed, res, wall):
     known = vlib.load_known()
     mine = [v for v in res["viols"] if v["why"].startswith(prop + ":")]
-    new = []
-    seen_known = {}
+    new, seen_known = [], {}
     for v in mine:
-        sig = signature(v)
+        sig = g["signature"](v)
         k = vlib.match_known(known, prop, sig)
         if k:
-            seen_known.setdefault(k["signature"], (k, 0))
-            seen_known[k["signature"]] = (k, seen_known[k["signature"]][1] + 1)
+            seen_known[k["signature"]] = (k, seen_known.get(k["signature"], (k, 0))[1] + 1)
         else:
             v["signature"] = sig
             new.append(v)
     for sig, (k, n) in seen_known.items():
-        print(f"KNOWN-FINDING: property={prop} {k['what']} (signature {sig}, {n} occurrences this run)")
+        print(f"KNOWN-FINDING: property={prop} {k['what']} ({n} occurrences this run)")
     states = sum(t["distinct"] for t in res["tlc"])
     trans = sum(t["transitions"] for t in res["tlc"])
     cov = dict(
         states=states, transitions=trans,
         traces_validated_against_impl=res["judge"]["runs"],
         events_judged=res["judge"]["events"],
-        samples=res["samples"],
-        tlc=res["tlc"],
+        samples=res["samples"], tlc=res["tlc"],
         verdict_agreement=dict(agree=res["verdict_agree"], drift=res["verdict_drift"], drift_samples=res["drift_samples"]),
         model_invariant_failures=res.get("model_invariant_failures", []),
         violations_for_this_property=len(mine), new_violations=len(new),
-        known_findings_seen=[k for k in seen_known],
-        exhaustive=False,
-        rule="every transition of the bounded TLC state graph is a replay candidate (prefix = shortest path); "
-             "quick replays a seeded sample per configuration, thorough replays all; plus random long runs",
-        wall=res.get("wall"), group_cached=res.get("group_cached", False),
+        known_findings_seen=list(seen_known), exhaustive=False,
+        rule=g["rule"], wall=res.get("wall"), group_cached=res.get("group_cached", False),
+        group_wall=res.get("group_wall"),
     )
-    vlib.write_evidence(prop, tier, seed, LEVELS[prop], cov, wall, len(new), ASSUME[group])
+    vlib.write_evidence(prop, tier, seed, g["level"].get(prop, "model_checking"), cov, wall, len(new), g["assumptions"])
     if new:
         seen = set()
         for v in new:
@@ -347,7 +159,7 @@ def report(prop, group, tier, seed, res, wall):
                 continue
             seen.add(v["signature"])
             p = vlib.write_replay(prop, hashlib.sha256(v["signature"].encode()).hexdigest()[:10],
-                                  dict(property=prop, group=group, seed=seed, tier=tier, signature=v["signature"],
+                                  dict(property=prop, group=g["name"], seed=seed, tier=tier, signature=v["signature"],
                                        why=v["why"], cfg=v["cfg"], cmds=v["cmds"], src=v["src"]))
             print(f"VIOLATION property={prop} replay={p}")
             print(f"  reason={v['why']} signature={v['signature']}")
@@ -357,20 +169,22 @@ def report(prop, group, tier, seed, res, wall):
     return 0
 
 
-def replay(prop, group, path):
+def replay(prop, g, path):
     r = json.load(open(path))
+    if g.get("kind", "model") != "model":
+        return g["replay"](prop, r)
     tp, _ = vlib.run_harness("conn", [dict(run=0, cfg=r["cfg"], cmds=r["cmds"])], f"replay_{prop}", jobs=1)
-    judge_mod = {"sink": "SinkJudge"}[group]
-    verdict = vlib.judge(judge_mod, tp, f"replay_{prop}", parallel=1)
+    verdict = vlib.judge(g["judge"], tp, f"replay_{prop}", parallel=1)
     for line in open(tp):
         e = json.loads(line)
         print(" ", e["e"], {k: v for k, v in e.items() if k != "e" and v not in (0, "")})
-    if verdict["viol"]:
-        for v in verdict["viol"]:
-            print(f"VIOLATION property={prop} replay={path}")
-            print(f"  reason={v['why']} at event {v['at']}")
+    bad = [v for v in verdict["viol"] if v["why"].startswith(prop + ":")]
+    for v in bad:
+        print(f"VIOLATION property={prop} replay={path}")
+        print(f"  reason={v['why']} at event {v['at']}")
+    if bad:
         return 1
-    print("replay: no violation")
+    print("replay: no violation of", prop)
     return 0
 
 
